@@ -61,7 +61,7 @@ func ScalarShape(t *rapid.T, label string) (*big.Int, string) {
 // PrivKey draws a valid private key d in [1, n-2] and its byte encoding, which
 // is 32 bytes or (class "short") the minimal-or-padded shorter encoding.
 func PrivKey(t *rapid.T, label string) (d *big.Int, enc []byte, cls string) {
-	cls = gen.Pick(t, label+".class", "uniform", "uniform", "uniform", "boundary", "short", "lead00")
+	cls = gen.Pick(t, label+".class", "uniform", "uniform", "uniform", "boundary", "short", "lead00", "carry")
 	r := gen.Rand(t, label+".seed")
 	switch cls {
 	case "uniform":
@@ -83,6 +83,27 @@ func PrivKey(t *rapid.T, label string) (d *big.Int, enc []byte, cls string) {
 			d = big.NewInt(1)
 		}
 		enc = gen.Pad32(d)
+	case "carry":
+		// d ends in a run of 0xFF bytes (1+d carries); in a short encoding the run may be the whole string
+		l := 32
+		if gen.Bool(t, label+".shortenc") {
+			l = gen.Uniform(t, label+".len", 1, 31)
+		}
+		k := gen.Uniform(t, label+".ffrun", 1, l)
+		b := gen.RandBytes(r, l)
+		for i := l - k; i < l; i++ {
+			b[i] = 0xff
+		}
+		d = new(big.Int).SetBytes(b)
+		if !sm2ref.ValidPrivate(d) {
+			b[0] &= 0x7f
+			d = new(big.Int).SetBytes(b)
+		}
+		if d.Sign() == 0 {
+			b[l-1] = 1
+			d = big.NewInt(1)
+		}
+		enc = b
 	case "short":
 		l := gen.Int(t, label+".len", 1, 31)
 		b := gen.RandBytes(r, l)
@@ -287,7 +308,7 @@ func DrawVerifyCase(t *rapid.T) VerifyCase {
 	d, _, _ := PrivKey(t, "d")
 	px, py, pub := Pub(d)
 	cls := gen.Pick(t, "vclass", "valid", "valid-shaped", "bitflip", "bitflip", "length", "r=0", "s=0", "s=n", "r+s=n", "R=inf", "r+n", "s+n",
-		"x+p", "y>=p", "offcurve", "negY", "zeroKey", "garbage", "swap", "r>=n", "e+n")
+		"x+p", "y>=p", "offcurve", "negY", "zeroKey", "garbage", "swap", "r>=n", "e+n", "chosen-R", "chosen-R", "chosen-R")
 	// a valid signature to start from
 	mk := func(shaped bool) (e, rb, sb []byte) {
 		for {
@@ -414,6 +435,71 @@ func DrawVerifyCase(t *rapid.T) VerifyCase {
 			} else {
 				c.E, c.R, c.S = gen.Pad32(new(big.Int).Add(small, N)), gen.Pad32(rr), gen.Pad32(ss)
 			}
+		}
+	case "chosen-R":
+		// Full control over (e, x_R): pick the point R (x near p / near n / near 0 / with leading zeros / uniform), the digest e
+		// (all-FF, near 2^256, near n, 0, uniform) and s; then r = (e+x_R) mod n, t = r+s, and the PUBLIC KEY is solved:
+		// P = [t^-1](R - [s]G). A valid signature by construction (the private key is unknown and not needed).
+		for try := 0; ; try++ {
+			var R sm2ref.Point
+			xcls := gen.Pick(t, "Rx", "near-p", "near-p", "near-n", "near-0", "lead00", "uniform")
+			var x0 *big.Int
+			switch xcls {
+			case "near-p":
+				x0 = new(big.Int).Sub(P, big.NewInt(int64(gen.Int(t, "xoff", 1, 3000))))
+			case "near-n":
+				x0 = new(big.Int).Add(N, big.NewInt(int64(gen.Int(t, "xoff", -1500, 1500))))
+			case "near-0":
+				x0 = big.NewInt(int64(gen.Int(t, "xoff", 0, 3000)))
+			case "lead00":
+				x0 = new(big.Int).SetBytes(gen.RandBytes(r, 32-gen.Uniform(t, "xz", 1, 24)))
+			default:
+				x0 = new(big.Int).SetBytes(gen.RandBytes(r, 40))
+				x0.Mod(x0, P)
+			}
+			for {
+				var ok bool
+				if R, ok = sm2ref.LiftX(x0); ok {
+					break
+				}
+				x0.Add(x0, one).Mod(x0, P)
+			}
+			if gen.Bool(t, "Rneg") {
+				R = sm2ref.Neg(R)
+			}
+			var ev *big.Int
+			ecls := gen.Pick(t, "ecls", "allFF", "near-2^256", "near-n", "zero", "uniform", ">=n")
+			switch ecls {
+			case "allFF":
+				ev = new(big.Int).Sub(T256, one)
+			case "near-2^256":
+				ev = new(big.Int).Sub(T256, big.NewInt(int64(gen.Int(t, "eoff", 1, 1000))))
+			case "near-n":
+				ev = new(big.Int).Add(N, big.NewInt(int64(gen.Int(t, "eoff", -500, 500))))
+			case "zero":
+				ev = big.NewInt(int64(gen.Int(t, "eoff", 0, 3)))
+			case ">=n":
+				span := new(big.Int).Sub(T256, N)
+				ev = new(big.Int).SetBytes(gen.RandBytes(r, 40))
+				ev.Mod(ev, span).Add(ev, N)
+			default:
+				ev = new(big.Int).SetBytes(gen.RandBytes(r, 32))
+			}
+			rr := modn(new(big.Int).Add(ev, R.X))
+			s := uni()
+			tt := modn(new(big.Int).Add(rr, s))
+			if rr.Sign() == 0 || tt.Sign() == 0 {
+				continue
+			}
+			// P = t^-1 (R - sG)
+			Q := sm2ref.Add(R, sm2ref.Neg(sm2ref.Mul(s, sm2ref.G)))
+			if Q.Inf {
+				continue
+			}
+			pk := sm2ref.Mul(new(big.Int).ModInverse(tt, N), Q)
+			c.Px, c.Py, c.E, c.R, c.S = gen.Pad32(pk.X), gen.Pad32(pk.Y), gen.Pad32(ev), gen.Pad32(rr), gen.Pad32(s)
+			c.Class = "chosen-R:x=" + xcls + ",e=" + ecls
+			break
 		}
 	case "x+p", "y>=p":
 		// key with a tiny x so that x+p fits in 32 bytes; the secret key of such a point is unknown, so the
